@@ -20,6 +20,7 @@ type Effects struct {
 	bySig  map[string][]*ssa.Function // signature string -> address-taken in-repo functions
 	impls  map[string][]*ssa.Function // method name -> in-repo methods
 	allocs map[*ssa.Function]bool     // function (transitively) allocates
+	importClosure map[*types.Package]map[*types.Package]bool
 }
 
 func typeName(t types.Type) string {
@@ -186,10 +187,17 @@ func sigKey(sig *types.Signature) string {
 
 // implementers returns the in-repo methods that an interface call may dispatch to.
 func (E *Effects) implementers(c *ssa.CallCommon) []*ssa.Function {
+	return E.implementersFrom(nil, c)
+}
+
+func (E *Effects) implementersFrom(caller *ssa.Function, c *ssa.CallCommon) []*ssa.Function {
 	var out []*ssa.Function
 	iface, _ := c.Value.Type().Underlying().(*types.Interface)
 	for _, f := range E.impls[c.Method.Name()] {
 		rt := f.Signature.Recv().Type()
+		if !E.visibleFrom(caller, c.Value, rt) {
+			continue
+		}
 		if iface == nil || types.Implements(rt, iface) {
 			out = append(out, f)
 		}
@@ -199,7 +207,81 @@ func (E *Effects) implementers(c *ssa.CallCommon) []*ssa.Function {
 
 // ifaceArgMods: an external function that receives an interface- or func-typed argument may call
 // back into /repo through it.
+// localOrigin reports whether an interface value was produced inside the current function by a call
+// or a conversion (as opposed to flowing in through a parameter, a free variable or the heap).
+func localOrigin(v ssa.Value) bool {
+	switch x := v.(type) {
+	case *ssa.Call, *ssa.MakeInterface, *ssa.MakeClosure, *ssa.Alloc:
+		return true
+	case *ssa.Extract:
+		_, ok := x.Tuple.(*ssa.Call)
+		return ok
+	case *ssa.ChangeInterface:
+		return localOrigin(x.X)
+	case *ssa.ChangeType:
+		return localOrigin(x.X)
+	}
+	return false
+}
+
+// visibleFrom: a dynamic type can only be created by code that can name it, so a value produced
+// locally (by a call into packages the caller's package imports, transitively) cannot have a
+// dynamic type defined in a /repo package outside that import closure.
+func (E *Effects) visibleFrom(caller *ssa.Function, v ssa.Value, recv types.Type) bool {
+	if caller == nil || !localOrigin(v) {
+		return true
+	}
+	pkg := caller.Pkg
+	for p := caller; pkg == nil && p != nil; p = p.Parent() {
+		pkg = p.Pkg
+	}
+	if pkg == nil {
+		return true
+	}
+	var tp *types.Package
+	t := recv
+	if pt, ok := t.(*types.Pointer); ok {
+		t = pt.Elem()
+	}
+	if n, ok := types.Unalias(t).(*types.Named); ok && n.Obj() != nil {
+		tp = n.Obj().Pkg()
+	}
+	if tp == nil {
+		return true
+	}
+	return E.imports(pkg.Pkg, tp)
+}
+
+func (E *Effects) imports(from, to *types.Package) bool {
+	if from == to {
+		return true
+	}
+	if E.importClosure == nil {
+		E.importClosure = map[*types.Package]map[*types.Package]bool{}
+	}
+	cl, ok := E.importClosure[from]
+	if !ok {
+		cl = map[*types.Package]bool{}
+		var walk func(p *types.Package)
+		walk = func(p *types.Package) {
+			for _, q := range p.Imports() {
+				if !cl[q] {
+					cl[q] = true
+					walk(q)
+				}
+			}
+		}
+		walk(from)
+		E.importClosure[from] = cl
+	}
+	return cl[to]
+}
+
 func (E *Effects) callbackMods(args []ssa.Value, out map[string]bool) {
+	E.callbackModsFrom(nil, args, out)
+}
+
+func (E *Effects) callbackModsFrom(caller *ssa.Function, args []ssa.Value, out map[string]bool) {
 	for _, a := range args {
 		switch t := a.Type().Underlying().(type) {
 		case *types.Signature:
@@ -233,6 +315,9 @@ func (E *Effects) callbackMods(args []ssa.Value, out map[string]bool) {
 				for _, f := range E.impls[t.Method(i).Name()] {
 					rt := f.Signature.Recv().Type()
 					if concrete != nil && !types.Identical(rt, concrete) {
+						continue
+					}
+					if !E.visibleFrom(caller, a, rt) {
 						continue
 					}
 					if types.Implements(rt, t) {
@@ -280,13 +365,14 @@ func (E *Effects) callMods(ci ssa.CallInstruction, useContracts bool) map[string
 		}
 		return out
 	}
+	caller := ci.Parent()
 	if c.IsInvoke() {
-		for _, f := range E.implementers(c) {
+		for _, f := range E.implementersFrom(caller, c) {
 			for k := range E.Mods[f] {
 				out[k] = true
 			}
 		}
-		E.callbackMods(c.Args, out)
+		E.callbackModsFrom(caller, c.Args, out)
 		out[liveKey] = true
 		return out
 	}
@@ -314,7 +400,7 @@ func (E *Effects) callMods(ci ssa.CallInstruction, useContracts bool) map[string
 			return out
 		}
 		// external (or generated) function: only callbacks can touch /repo state
-		E.callbackMods(c.Args, out)
+		E.callbackModsFrom(ci.Parent(), c.Args, out)
 		out[liveKey] = true
 		return out
 	case *ssa.MakeClosure:
@@ -331,7 +417,7 @@ func (E *Effects) callMods(ci ssa.CallInstruction, useContracts bool) map[string
 				}
 			}
 		}
-		E.callbackMods(c.Args, out)
+		E.callbackModsFrom(ci.Parent(), c.Args, out)
 		out[liveKey] = true
 		return out
 	}
